@@ -23,7 +23,7 @@ vars == <<v, stage, warned, exc>>
 
 MeshDefects == {"even_num_y", "unknown_wing_type", "unknown_mesh_key", "missing_num_x", "missing_symmetry", "crm_with_span"}
 SurfDefects == {"ground_no_sym", "unknown_fem", "only_skin", "only_spar", "unknown_surf_key"}
-MultiDefects == {"len_ny", "len_taper", "len_span", "len_sweep", "len_meshes", "len_sec_name"}
+MultiDefects == {"len_ny", "len_taper", "len_span", "len_sweep", "len_meshes", "len_sec_name", "multi_ground_no_sym"}   \* the last: full-span multi-section surface with a ground plane
 Kinds == {"aero", "struct", "aerostruct"}
 
 \* which defects make sense for which target / model kind
